@@ -626,6 +626,8 @@ def exec_for_invariant(engine, ctx, st: ast.For, env: Env, it, inv):
             ctx.loop_elems.pop()
         for lab, c in inv_clauses(i + 1):
             ctx.oblige("%s/inv-step#%s" % (label, lab), lift_bool(c), kind="inv-step")
+        # the end of an arbitrary iteration must be reachable under the assumed invariant (else inv-step is vacuous)
+        ctx.guards.append(("loop%d-step" % loop_ordinal(env, st), list(ctx.pc), list(ctx.axioms), list(ctx.taken)))
         raise PathEnd()
     # exit: invariant holds at i = max(lo, hi)
     ctx.assume(z3.If(hi >= lo, i == hi, i == lo))
